@@ -1,4 +1,239 @@
-import KoordVerif.Model.C16
+import KoordVerif.Proofs.C16Evict
 import KoordVerif.Model.C16Arb
+/-
+C16 — descheduler disruption budgets are never exceeded, even with concurrent evictors.
+
+Part 1 (M-evict): for every number of concurrent callers, every request set, every API failure script and
+EVERY schedule of the atomic blocks, a caller whose check, call and count form one critical section keeps
+`issued ≤ cap` and `counters = issued`; the shape that the repository had before c13dbd3/888c815/62f0c55
+does not (witness schedule).  Ties/C16.lean shows that the shape extracted from today's source is the safe one.
+Part 2 (M-arb): one iteration of the arbitration loop, on the state that already contains every earlier
+admission of the same round.
+-/
 namespace KoordVerif.C16
+
+/-! ### Part 1 — eviction caps -/
+
+theorem run_good {refuse caps} (hR : RefuseOK refuse caps) (sched : List Nat) :
+    ∀ s : CS, Good caps s.ctr s.issued → (∀ t ∈ s.ths, ThOK t) →
+      Good caps (run refuse caps s sched).ctr (run refuse caps s sched).issued := by
+  induction sched with
+  | nil => intro s g _; exact g
+  | cons i rest ih =>
+    intro s g hall
+    have h := stepAt_ok hR s.ths i s.ctr s.issued g hall
+    simp only [run, List.foldl_cons]
+    exact ih (step refuse caps s i) h.1 h.2
+
+/-- **atomic_reserve_safe.**  If check, call and count of the caller form ONE locked section, then for any
+    sound limit test, any N callers (pods, API answers) and ANY schedule: per real node, per namespace and
+    in total the evictions issued are within the caps, and the counters equal the evictions issued. -/
+theorem atomic_reserve_safe (refuse : Caps → Ctr → Pod → Bool) (caps : Caps) (hR : RefuseOK refuse caps)
+    (prog : Prog) (h1 : oneSection prog = true) (pods : List (Pod × Bool)) (sched : List Nat) :
+    let s := run refuse caps (initCS prog pods) sched
+    (∀ n, n ≠ 0 → issuedBy (·.node) s.issued n = cget s.ctr.node n ∧ capLe caps.node (issuedBy (·.node) s.issued n)) ∧
+    (∀ k, issuedBy (·.ns) s.issued k = cget s.ctr.ns k ∧ capLe caps.ns (issuedBy (·.ns) s.issued k)) ∧
+    (s.issued.length = s.ctr.total ∧ capLe caps.total s.issued.length) := by
+  have hp : prog = [theBlock] := by simpa [oneSection, theBlock] using h1
+  subst hp
+  have g := run_good hR sched (initCS [theBlock] pods) (good_init caps) (by
+    intro t ht
+    simp only [initCS, List.mem_map] at ht
+    obtain ⟨a, _, rfl⟩ := ht
+    right; simp [atomize, theBlock])
+  refine ⟨fun n hn => ⟨g.node n hn, ?_⟩, fun k => ⟨g.ns k, ?_⟩, g.total, ?_⟩
+  · rw [g.node n hn]; exact g.caps.node n hn
+  · rw [g.ns k]; exact g.caps.ns k
+  · rw [g.total]; exact g.caps.total
+
+/-- PodEvictor (`==` test, node and namespace caps) -/
+theorem atomic_reserve_safe_podevictor (capNode capNs : Option Nat) (prog : Prog) (h1 : oneSection prog = true)
+    (pods : List (Pod × Bool)) (sched : List Nat) :
+    let s := run peRefuse ⟨capNode, capNs, none⟩ (initCS prog pods) sched
+    (∀ n, n ≠ 0 → issuedBy (·.node) s.issued n = cget s.ctr.node n ∧ capLe capNode (issuedBy (·.node) s.issued n)) ∧
+    (∀ k, issuedBy (·.ns) s.issued k = cget s.ctr.ns k ∧ capLe capNs (issuedBy (·.ns) s.issued k)) ∧
+    s.issued.length = s.ctr.total := by
+  have h := atomic_reserve_safe peRefuse ⟨capNode, capNs, none⟩ (peRefuse_ok _ rfl) prog h1 pods sched
+  exact ⟨h.1, h.2.1, h.2.2.1⟩
+
+/-- evictorProxy + EvictionLimiter (`count+1 > max` test, node / namespace / total caps) -/
+theorem atomic_reserve_safe_limiter (caps : Caps) (prog : Prog) (h1 : oneSection prog = true)
+    (pods : List (Pod × Bool)) (sched : List Nat) :
+    let s := run elRefuse caps (initCS prog pods) sched
+    (∀ n, n ≠ 0 → issuedBy (·.node) s.issued n = cget s.ctr.node n ∧ capLe caps.node (issuedBy (·.node) s.issued n)) ∧
+    (∀ k, issuedBy (·.ns) s.issued k = cget s.ctr.ns k ∧ capLe caps.ns (issuedBy (·.ns) s.issued k)) ∧
+    (s.issued.length = s.ctr.total ∧ capLe caps.total s.issued.length) :=
+  atomic_reserve_safe elRefuse caps (elRefuse_ok caps) prog h1 pods sched
+
+/-- the shape PodEvictor.Evict had before c13dbd3: check and call with no lock, count under the lock. -/
+def splitProg : Prog := [⟨false, [.check, .call]⟩, ⟨true, [.count]⟩]
+
+/-- the shape evictorProxy.Evict has when its lock is not shared: AllowEvict | plugin call | Done. -/
+def allowDoneProg : Prog := [⟨true, [.check]⟩, ⟨false, [.call]⟩, ⟨true, [.count]⟩]
+
+/-- two callers, per-node cap 1: schedule check₁ check₂ call₁ call₂ count₁ count₂ issues 2 evictions. -/
+theorem split_shape_unsafe_counterexample :
+    ¬ (∀ sched, issuedBy (·.node)
+        (run peRefuse ⟨some 1, none, none⟩ (initCS splitProg [(⟨1, 0⟩, true), (⟨1, 0⟩, true)]) sched).issued 1 ≤ 1) := by
+  intro h
+  exact absurd (h [0, 1, 0, 1, 0, 1]) (by decide)
+
+theorem allow_done_shape_unsafe_counterexample :
+    ¬ (∀ sched, (run elRefuse ⟨none, none, some 1⟩ (initCS allowDoneProg [(⟨1, 0⟩, true), (⟨2, 1⟩, true)]) sched).issued.length ≤ 1) := by
+  intro h
+  exact absurd (h [0, 1, 0, 1, 0, 1]) (by decide)
+
+/-- the sequential model that is compared with the real PodEvictor is the one-section block -/
+theorem peEvict_is_block (caps : Caps) (c : Ctr) (iss : List Pod) (p : Pod) (a : Bool) :
+    (peEvict caps false c p a).1 = (runActs peRefuse caps p a theBlock.acts c iss).1 ∧
+    ((peEvict caps false c p a).2.ok = true ↔ (runActs peRefuse caps p a theBlock.acts c iss).2.1 = p :: iss) := by
+  simp only [peEvict, theBlock, runActs]
+  cases hr : peRefuse caps c p <;> cases a <;> simp
+
+/-- … and likewise evictorProxy.Evict with a limiter -/
+theorem pxEvict_is_block (caps : Caps) (c : Ctr) (iss : List Pod) (p : Pod) (a : Bool) :
+    (pxEvict (some caps) false c p a).1 = (runActs elRefuse caps p a theBlock.acts c iss).1 ∧
+    ((pxEvict (some caps) false c p a).2.ok = true ↔ (runActs elRefuse caps p a theBlock.acts c iss).2.1 = p :: iss) := by
+  simp only [pxEvict, theBlock, runActs]
+  cases hr : elRefuse caps c p <;> cases a <;> simp
+
+/-- **refused_no_effect**: an eviction that issues no call and fails leaves every counter as it was. -/
+theorem refused_no_effect (caps : Caps) (lim : Option Caps) (dry : Bool) (s : Ctr) (p : Pod) (a : Bool) :
+    ((peEvict caps dry s p a).2.ok = false → (peEvict caps dry s p a).1 = s) ∧
+    ((pxEvict lim dry s p a).2.ok = false → (pxEvict lim dry s p a).1 = s) := by
+  constructor
+  · cases h : peRefuse caps s p <;> cases dry <;> cases a <;> simp [peEvict, h]
+  · cases lim with
+    | none => cases dry <;> cases a <;> simp [pxEvict]
+    | some c => cases h : elRefuse c s p <;> cases dry <;> cases a <;> simp [pxEvict, h]
+
+/-- **dry_run_no_call**: dry-run never issues an API / plugin call; PodEvictor does not even count. -/
+theorem dry_run_no_call (caps : Caps) (lim : Option Caps) (s : Ctr) (p : Pod) (a : Bool) :
+    (peEvict caps true s p a).2.called = false ∧ (peEvict caps true s p a).1 = s ∧
+    (pxEvict lim true s p a).2.called = false := by
+  refine ⟨?_, ?_, ?_⟩
+  · cases h : peRefuse caps s p <;> simp [peEvict, h]
+  · cases h : peRefuse caps s p <;> simp [peEvict, h]
+  · cases lim with
+    | none => simp [pxEvict]
+    | some c => cases h : elRefuse c s p <;> simp [pxEvict, h]
+
+/-- at most one call per eviction, and a successful non-dry-run eviction did call -/
+theorem ok_iff_granted (caps : Caps) (s : Ctr) (p : Pod) (a : Bool) :
+    (peEvict caps false s p a).2.ok = true → (peEvict caps false s p a).2.called = true ∧ a = true := by
+  cases h : peRefuse caps s p <;> cases a <;> simp [peEvict, h]
+
+example : (run peRefuse ⟨some 1, none, none⟩ (initCS [theBlock] [(⟨1, 0⟩, true), (⟨1, 0⟩, true), (⟨2, 0⟩, false)]) [2, 1, 0, 1]).issued
+    = [⟨1, 0⟩] := by decide
+example : oneSection (toProg [(true, [0, 1, 2])]) = true := by decide
+example : oneSection splitProg = false ∧ oneSection allowDoneProg = false := by decide
+
+/-! ### Part 2 — arbitration round
+
+Full statement `round_inv` (DESIGN §4): after `round cfg uf st order`, per node / namespace / workload / globally
+`#(running ∨ passed) ≤ max(limit, count before the round) + #(admissions the code exempts: pod gone or annotated)`,
+provided no pod has two open jobs.  Proved here: the per-iteration half (`round_inv_partial`): every
+non-exempt admission had headroom in ALL dimensions on the state containing every earlier admission of the
+same round, and admits exactly that one job.  Missing: the counting lemma `count after ≤ counted-excluding-p + 1`
+for each of the five counters (checked on every generated history by the Go oracle instead). -/
+
+theorem markPassed_effect (st : ArbSt) (jid : Nat) :
+    (markPassed st false jid).1.arbitrated = jid :: st.arbitrated ∧
+    (markPassed st false jid).1.pods = st.pods ∧ (markPassed st true jid).1 = st := by
+  simp [markPassed]
+
+/-- **round_inv_partial** -/
+theorem round_inv_partial (cfg : ArbCfg) (uf : List Nat) (st : ArbSt) (jid : Nat) (j : JobA) (p : PodA)
+    (hj : findJob st jid = some j) (hpod : j.pod ≠ 0) (hp : findPod st j.pod = some p) (hann : p.ann = false)
+    (hv : (processJob cfg uf st jid).2 = .passed) :
+    passGlobal cfg st true p = true ∧ passNode cfg st true p = true ∧ passNs cfg st true p = true ∧
+      passWorkload cfg st true p = true ∧ nonRetryable cfg p = true ∧
+      (processJob cfg uf st jid).1.arbitrated = jid :: st.arbitrated := by
+  simp only [processJob, hj, hpod, if_false, hp] at hv ⊢
+  by_cases hn : nonRetryable cfg p = true
+  · by_cases hr : retryable cfg st true p = true
+    · simp only [hn, hr, Bool.not_true] at hv ⊢
+      by_cases hu : jid ∈ uf
+      · simp [hu, markPassed] at hv
+      · simp [retryable, hann, retryableChecks] at hr
+        simp [hu, markPassed, hr]
+    · have hr' : retryable cfg st true p = false := by simpa using hr
+      simp [hn, hr'] at hv
+  · have hn' : nonRetryable cfg p = false := by simpa using hn
+    simp [hn'] at hv
+
+/-- **refused_stays_waiting**: a job refused only by a retryable (headroom) check is left exactly as it was —
+    same phase, still in the waiting collection, nothing marked. -/
+theorem refused_stays_waiting (cfg : ArbCfg) (uf : List Nat) (st : ArbSt) (jid : Nat) (j : JobA) (p : PodA)
+    (hj : findJob st jid = some j) (hpod : j.pod ≠ 0) (hp : findPod st j.pod = some p)
+    (hn : nonRetryable cfg p = true) (hr : retryable cfg st true p = false) :
+    processJob cfg uf st jid = (st, .waitingV) := by
+  simp [processJob, hj, hpod, hp, hn, hr]
+
+/-- a job is failed by the arbitrator only when the NON-retryable filter rejects its pod -/
+theorem failed_only_nonretryable (cfg : ArbCfg) (uf : List Nat) (st : ArbSt) (jid : Nat)
+    (hv : (processJob cfg uf st jid).2 = .failed) :
+    ∃ j p, findJob st jid = some j ∧ findPod st j.pod = some p ∧ nonRetryable cfg p = false := by
+  unfold processJob at hv
+  cases hj : findJob st jid with
+  | none => simp [hj] at hv
+  | some j =>
+    simp only [hj] at hv
+    cases hp : (if j.pod = 0 then none else findPod st j.pod) with
+    | none =>
+      simp only [hp, markPassed] at hv
+      by_cases hu : jid ∈ uf <;> simp [hu] at hv
+    | some p =>
+      simp only [hp] at hv
+      by_cases hn : nonRetryable cfg p = true
+      · by_cases hr : retryable cfg st true p = true
+        · simp only [hn, hr, Bool.not_true, markPassed] at hv
+          by_cases hu : jid ∈ uf <;> simp [hu] at hv
+        · have : retryable cfg st true p = false := by simpa using hr
+          simp [hn, this] at hv
+      · refine ⟨j, p, rfl, ?_, by simpa using hn⟩
+        by_cases h0 : j.pod = 0
+        · simp [h0] at hp
+        · simpa [h0] using hp
+
+/-- a failed Update (API error) leaves the job waiting and unmarked, so later jobs of the round do not see it -/
+theorem failed_update_no_effect (cfg : ArbCfg) (uf : List Nat) (st : ArbSt) (jid : Nat)
+    (hv : (processJob cfg uf st jid).2 = .passFailedUpdate) : (processJob cfg uf st jid).1 = st := by
+  unfold processJob at hv ⊢
+  cases hj : findJob st jid with
+  | none => simp
+  | some j =>
+    simp only [hj] at hv ⊢
+    cases hp : (if j.pod = 0 then none else findPod st j.pod) with
+    | none =>
+      simp only [hp, markPassed] at hv ⊢
+      by_cases hu : jid ∈ uf <;> simp [hu] at hv ⊢
+    | some p =>
+      simp only [hp] at hv ⊢
+      by_cases hn : nonRetryable cfg p = true
+      · by_cases hr : retryable cfg st true p = true
+        · simp only [hn, hr, Bool.not_true, markPassed] at hv ⊢
+          by_cases hu : jid ∈ uf <;> simp [hu] at hv ⊢
+        · have : retryable cfg st true p = false := by simpa using hr
+          simp [hn, this]
+      · have : nonRetryable cfg p = false := by simpa using hn
+        simp [this] at hv
+
+/-- **no_second_job**: `arbitratorImpl.Filter` never accepts a pod that already has a pending or running job. -/
+theorem no_second_job (cfg : ArbCfg) (st : ArbSt) (p : PodA) (j : JobA)
+    (hj : j ∈ st.jobs) (hpod : j.pod = p.id) (hph : j.phase = 0 ∨ j.phase = 1 ∨ j.phase = 2) :
+    arbFilter cfg st p = false := by
+  have : hasJob st false p = true := by
+    simp only [hasJob, List.any_eq_true]
+    refine ⟨j, hj, ?_⟩
+    rcases hph with h | h | h <;> simp [live, h, hpod]
+  simp [arbFilter, this]
+
+-- non-vacuity: a round over two waiting jobs on one node with per-node limit 1 admits the first, keeps the second
+example :
+    let cfg : ArbCfg := ⟨-1, 1, -1, -1, 3, [(1, 5)]⟩
+    let st : ArbSt := { pods := [⟨1, 1, 1, 1, true, false⟩, ⟨2, 1, 1, 1, true, false⟩],
+                        jobs := [⟨1, 1, 1, 0, false⟩, ⟨2, 2, 1, 0, false⟩], waiting := [1, 2] }
+    (round cfg [] st [1, 2]).arbitrated = [1] ∧ (round cfg [] st [1, 2]).waiting = [2] := by decide
+
 end KoordVerif.C16
